@@ -31,6 +31,13 @@ def table_ops(p, tfield):
     return ops
 
 
+def _is_nsmallest(v, table) -> bool:
+    """heapq.nsmallest(k >= 2, table, key=table.get), taken while the new key is already in the table"""
+    v = strip_epochs(v)
+    return v[0] == "call" and v[1][0] == "ext" and v[1][-1] == "nsmallest" and len(v[2]) == 2 and v[2][0][0] == "c" and isinstance(v[2][0][1], int) \
+        and v[2][0][1] >= 2 and v[2][1] == table and dict(v[3]).get("key") is not None and strip_epochs(dict(v[3])["key"])[:3] == ("f", table, "get")
+
+
 def sketch_result(p, fname):
     for e in p.events:
         if e.kind == "call" and e.name == fname and e.target is not None and e.target.cls.name == "CountMinSketch":
@@ -75,6 +82,11 @@ def stream_threshold(prog, rep):
                 good = False
                 break
             got = [(a, b, c) for (a, b, c, _) in ops]
+            if want[0][0] == "pop" and not got:
+                # nothing to remove when the key is known not to be in the table
+                T_ = ("f", SELF, T, 0)
+                if any(strip_epochs(c.atom) in (("cmp", "in", key, T_), ("cmp", "notin", key, T_)) and ((strip_epochs(c.atom)[1] == "notin") == c.truth) for c in p.conds):
+                    continue
             if got != want:
                 row = "estimate >= threshold" if want[0][0] == "set" else "estimate < threshold"
                 rep.bad("C17.threshold-table", where, f"row {row}: ops {[(a, nshow(b) if b else None) for a, b, c in got]}",
@@ -146,6 +158,8 @@ def heavy_hitters(prog, rep):
             arg = pops[0][1]
             okmin = arg is not None and arg[0] == "call" and arg[1] == ("g", "min") and arg[2] == (table,) and \
                 dict(arg[3]).get("key") is not None and strip_epochs(dict(arg[3])["key"])[:3] == ("f", table, "get")
+            if not okmin and arg is not None and arg[0] == "sub" and arg[2] == C(0) and _is_nsmallest(arg[1], table):
+                okmin = True  # heapq.nsmallest(k, table, key=table.get)[0]: the key with the smallest recorded estimate
             if not okmin:
                 rep.bad("C17.hitters-table", where, f"evicts {nshow(arg) if arg else '?'}", "the evicted key is not the one with the smallest recorded estimate", pops[0][3].where())
                 good = False
@@ -170,7 +184,9 @@ def heavy_hitters(prog, rep):
                     good = False
             if e.kind == "setfield" and e.base == SELF and e.name == "_HeavyHitters__smallest":
                 v = strip_epochs(e.value)
-                okv = (v[0] == "sub" and v[1] == table and v[2][0] == "call" and v[2][1] == ("g", "min") and v[2][2] == (table,)) or \
+                okv = (v[0] == "sub" and v[1] == table and v[2][0] == "sub" and v[2][2] == C(1) and _is_nsmallest(v[2][1], table)
+                       and any(o[0] == "pop" and o[1] is not None and o[1] == ("sub", v[2][1], C(0), 0) for o in ops)) or \
+                    (v[0] == "sub" and v[1] == table and v[2][0] == "call" and v[2][1] == ("g", "min") and v[2][2] == (table,)) or \
                     v == ("call", ("g", "min"), (("call", ("m", table, "values"), (), ()),), ())
                 if not okv:
                     rep.bad("C17.hitters-bookkeeping", where, f"smallest = {nshow(v)}", "the cached smallest value is not the minimum over the table", e.where())
@@ -192,6 +208,36 @@ def heavy_hitters(prog, rep):
             rep.bad("C17.hitters-table", where, f"rows {sorted(seen)}", f"rows present: {sorted(seen)}; one of room/update/replace/skip is missing", f.where())
 
 
+def floor_reset_rule(prog, rep):
+    """the skip row trusts the cached floor: it must be back at 0 whenever the table is emptied"""
+    from ..common import mro_methods
+    ctx = "HeavyHitters"
+    T, S = "_HeavyHitters__top_x", "_HeavyHitters__smallest"
+    ok, n = True, 0
+    for f in mro_methods(prog, ctx):
+        if f.prop:
+            continue
+        for p in paths(prog, ctx, f, inline="deep"):
+            if p.exit[0] != "return":
+                continue
+            emptied = [e for e in p.events if (e.kind == "setfield" and e.base == SELF and e.name == T and strip_epochs(e.value)[0] in ("newb", "dct") )
+                       or (e.kind == "call" and e.target is None and e.name == "clear" and e.d.get("recv") is not None and strip_epochs(e.recv) == ("f", SELF, T, 0))]
+            if not emptied:
+                continue
+            n += 1
+            v = p.fields.get((SELF, S))
+            if v is None or strip_epochs(v) != C(0):
+                rep.bad("C17.hitters-bookkeeping", f"{ctx}.{f.src_name}", f"table emptied, floor = {nshow(v) if v else 'kept'}",
+                        f"{f.src_name} empties the tracking table but leaves the cached smallest estimate at {nshow(v) if v else 'its old value'}: afterwards new keys whose "
+                        "estimate does not exceed the stale floor are never tracked although the table has no smaller entry", emptied[0].where())
+                ok = False
+                break
+        if not ok:
+            break
+    if ok and n:
+        rep.ok("C17.hitters-bookkeeping", f"{ctx}: every path that empties the table resets the cached floor to 0 ({n} paths)")
+
+
 def check(prog, rep, tier):
     rep.extra["explanation"] = EXPL
     rep.rule("C17.threshold-table", "threshold table: estimate >= threshold -> table[key] = estimate ; below -> key removed (add and remove)", floor=2)
@@ -201,12 +247,14 @@ def check(prog, rep, tier):
     rep.assume("inductive hypothesis for the skip row: cached smallest <= every tracked estimate (established by the replace row or the initial 0)")
     stream_threshold(prog, rep)
     heavy_hitters(prog, rep)
+    floor_reset_rule(prog, rep)
 
 
 from ..selftest import Mutant, del_stmt, insert_stmt, replace_expr, replace_stmt, swap_cmp
 
 _CM = "countminsketch/countminsketch.py"
 MUTANTS = [
+    Mutant("HeavyHitters.clear keeps the cached floor", _CM, del_stmt("HeavyHitters", "clear", "self.__smallest = 0"), rule="C17.hitters-bookkeeping"),
     Mutant("D5 re-introduced: add_alt never drops a key", _CM, replace_stmt("StreamThreshold", "add_alt", "if res >= self.__threshold", "if res >= self.__threshold:\n    self.__meets_threshold[key] = res"), rule="C17.threshold"),
     Mutant("StreamThreshold.add_alt: >= -> >", _CM, swap_cmp("StreamThreshold", "add_alt", _ast.GtE, _ast.Gt), rule="C17.threshold"),
     Mutant("StreamThreshold.remove_alt: < -> <=", _CM, swap_cmp("StreamThreshold", "remove_alt", _ast.Lt, _ast.LtE), rule="C17.threshold"),
